@@ -387,6 +387,13 @@ fn navigation(thorough: bool, seed: u64, rep: &mut Report) {
         }
         for d in 0..3 { match v.get_fragment(frags.len() + d) { Err(r) if r == d => {}, other => fail(rep, "index past the end rejected with the remaining distance", format!("{} -> {:?}", frags.len() + d, other.err())) } }
         if v.volume() != frags.iter().filter(|(_, f)| f.is_value()).count() || v.count(|_, _| true) != frags.len() { fail(rep, "volume()/count() agree with the traversal", "".into()); }
+        // `count` hands its predicate every fragment with its traversal number, in order, and counts exactly the accepted ones
+        { let mut seen: Vec<(usize, u8)> = Vec::new();
+          let tag = |f: &json_syntax::FragmentRef| -> u8 { if f.is_entry() { 1 } else if f.is_key() { 2 } else { 3 } };
+          let got = v.count(|i, f| { seen.push((i, tag(&f))); i % 3 != 1 && !f.is_key() });
+          let want_seen: Vec<(usize, u8)> = frags.iter().map(|(i, f)| (*i, tag(f))).collect();
+          let want = frags.iter().filter(|(i, f)| i % 3 != 1 && !f.is_key()).count();
+          if seen != want_seen || got != want { fail(rep, "volume()/count() agree with the traversal", format!("count with a predicate on (number, fragment): got {} expected {}; predicate saw {} fragments, traversal has {}", got, want, seen.len(), want_seen.len())); } }
         // mapped iterators and key-based mapped lookups at every container
         for (i, f) in &frags { if let json_syntax::FragmentRef::Value(x) = f { match x {
             Value::Array(a) => { for (m, item) in a.iter_mapped(&cm, *i).zip(a.iter()) { if !std::ptr::eq(m.value, item) || !matches!(v.get_fragment(m.offset), Ok(json_syntax::FragmentRef::Value(y)) if std::ptr::eq(y, item)) { fail(rep, "array iter_mapped offsets", format!("array at {}", i)); } } }
